@@ -3,7 +3,7 @@ CONSTANTS
   MaxReqs = 2
   MaxResp = 3
   ReqHdrNames = {"none", "multi"}
-  HdrNames = {"none", "rep", "bin"}
+  HdrNames = {"none", "rep", "bin", "shared"}
   ErrNames = {"none", "code", "msg", "full"}
   DataVariants = {"plain", "e1"}
   Decoys = {"none", "both"}
